@@ -142,8 +142,11 @@ func readRespAuth(d *dgram, p parsed, layers string, udpLen int) string {
 	alg := opt.OptData[4]
 	macOk := false
 	if udpLen >= 8 && udpLen <= len(d.wire) {
+		// the authenticated upper-layer data: the UDP header and the payload it delimits, as decoded
+		// (for a well-formed packet these are the last udpLen bytes of the datagram)
+		l4 := append(append([]byte(nil), p.udp.Contents...), p.udp.Payload...)
 		mac, err := spao.ComputeAuthCMAC(spao.MACInput{Key: exchKey(), Header: slayers.PacketAuthOption{EndToEndOption: opt},
-			ScionLayer: &p.scn, PldType: slayers.L4UDP, Pld: d.wire[len(d.wire)-udpLen:]},
+			ScionLayer: &p.scn, PldType: slayers.L4UDP, Pld: l4},
 			make([]byte, spao.MACBufferSize), make([]byte, 16))
 		macOk = err == nil && bytes.Equal(mac, opt.OptData[12:])
 	}
